@@ -341,6 +341,11 @@ func runIndependence(p *Program, r *RuleResult) {
 		}
 		found := ""
 		skipped := ""
+		partial := ""
+		namesPath := ""
+		if cc, ok := origin(s.ctx).(*ssa.Call); ok && len(cc.Common().Args) == 1 {
+			namesPath = normaliseCollectionPath(accessPath(cc.Common().Args[0]))
+		}
 		for _, ph := range d.Phases {
 			g := ph.Common().StaticCallee()
 			if ph != phase && !dview.passedBefore(phase, func(in ssa.Instruction) bool { return in == ssa.Instruction(ph) }) {
@@ -354,6 +359,14 @@ func runIndependence(p *Program, r *RuleResult) {
 				}
 				if normaliseCollectionPath(accessPath(call.Common().Args[1])) != norm {
 					continue
+				}
+				// the names checked are the whole name list the root's context is built from
+				// (not a slice of it, not another list)
+				if namesPath != "" {
+					if got := normaliseCollectionPath(accessPath(call.Common().Args[0])); got != namesPath {
+						partial = fmt.Sprintf("the check in %s at %s is applied to %s, not to the names the judgement's context is built from (%s); ", fnName(g), p.instrPos(call), displayKey(call.Common().Args[0]), namesPath)
+						continue
+					}
 				}
 				inLoop := false
 				for _, l := range gview.Loops() {
@@ -383,7 +396,7 @@ func runIndependence(p *Program, r *RuleResult) {
 			r.add(name, construct, Holds, p.instrPos(s.call), "covered by the check in "+found+" (same collection, element's own names and type), which precedes this phase")
 		} else {
 			r.add(name, construct, Violated, p.instrPos(s.call),
-				skipped+fmt.Sprintf("the root judgements typed here (provider type %s) are never covered by the mode-independence check: a provider can depend on a channel of a weaker mode", provPath))
+				skipped+partial+fmt.Sprintf("the root judgements typed here (provider type %s) are never covered by the mode-independence check: a provider can depend on a channel of a weaker mode", provPath))
 		}
 	}
 }
